@@ -85,6 +85,10 @@ class XPathMap(XPathFunction):
     _values: list[ta.XPathTokenType]  # a 2nd list of tokens is needed for map's values
     _nan_key: Union[bool, float] = False
 
+    @property
+    def arity(self) -> int:
+        return 1  # a map or an array is a function of its key or position
+
     def __init__(self, parser: ta.XPathParserType, items: Optional[Any] = None) -> None:
         super().__init__(parser)
         self._values = []
